@@ -101,6 +101,9 @@ pub struct OrderBook<const LEVELS: usize = 10> {
     tick_size: Price,
     /// Cumulative trade volume
     trade_vol: Vol,
+    /// Next queue-priority stamp, strictly increasing so that
+    /// orders queued at the same price and time keep distinct keys
+    queue_stamp: Nanos,
     /// Ask side of the book data structure
     #[serde(skip_serializing)]
     ask_side: AskSide,
@@ -162,6 +165,7 @@ impl<const LEVELS: usize> OrderBook<LEVELS> {
             t: start_time,
             tick_size,
             trade_vol: 0,
+            queue_stamp: 0,
             ask_side: AskSide::new(),
             bid_side: BidSide::new(),
             orders: Vec::new(),
@@ -326,6 +330,13 @@ impl<const LEVELS: usize> OrderBook<LEVELS> {
     /// Get the next order-id in the sequence
     fn current_order_id(&self) -> OrderId {
         self.orders.len()
+    }
+
+    /// Get the next queue-priority stamp
+    fn next_queue_stamp(&mut self) -> Nanos {
+        let stamp = self.queue_stamp;
+        self.queue_stamp += 1;
+        stamp
     }
 
     /// Get a reference to the order data stored at the id
@@ -497,7 +508,7 @@ impl<const LEVELS: usize> OrderBook<LEVELS> {
             self.match_bid(order_entry);
         }
         if order_entry.order.status != Status::Filled {
-            let key: OrderKey = (Side::Bid, order_entry.key.1, self.t);
+            let key: OrderKey = (Side::Bid, order_entry.key.1, self.next_queue_stamp());
             order_entry.key = key;
             self.bid_side
                 .insert_order(key, order_entry.order.order_id, order_entry.order.vol)
@@ -540,7 +551,7 @@ impl<const LEVELS: usize> OrderBook<LEVELS> {
             self.match_ask(order_entry);
         }
         if order_entry.order.status != Status::Filled {
-            let key: OrderKey = (Side::Ask, order_entry.key.1, self.t);
+            let key: OrderKey = (Side::Ask, order_entry.key.1, self.next_queue_stamp());
             order_entry.key = key;
             self.ask_side
                 .insert_order(key, order_entry.order.order_id, order_entry.order.vol)
@@ -699,7 +710,7 @@ impl<const LEVELS: usize> OrderBook<LEVELS> {
         if order_entry.order.status != Status::Filled {
             match order_entry.key.0 {
                 crate::types::Side::Bid => {
-                    let key: OrderKey = get_bid_key(self.t, new_price);
+                    let key: OrderKey = get_bid_key(self.next_queue_stamp(), new_price);
                     order_entry.key = key;
 
                     self.bid_side.insert_order(
@@ -709,7 +720,7 @@ impl<const LEVELS: usize> OrderBook<LEVELS> {
                     );
                 }
                 crate::types::Side::Ask => {
-                    let key: OrderKey = get_ask_key(self.t, new_price);
+                    let key: OrderKey = get_ask_key(self.next_queue_stamp(), new_price);
                     order_entry.key = key;
 
                     self.ask_side.insert_order(
@@ -875,6 +886,8 @@ struct OrderBookState<const LEVELS: usize = 10> {
     t: Nanos,
     tick_size: Price,
     trade_vol: Vol,
+    #[serde(default)]
+    queue_stamp: Nanos,
     orders: Vec<OrderEntry>,
     trades: Vec<Trade>,
     trading: bool,
@@ -894,9 +907,11 @@ impl<const LEVELS: usize> std::convert::TryFrom<OrderBookState<LEVELS>> for Orde
     fn try_from(state: OrderBookState<LEVELS>) -> Result<Self, Self::Error> {
         let mut bid_side = BidSide::default();
         let mut ask_side = AskSide::default();
+        let mut queue_stamp = state.queue_stamp;
 
         for OrderEntry { order, key } in state.orders.iter() {
             if order.status == Status::Active {
+                queue_stamp = queue_stamp.max(key.2.saturating_add(1));
                 match order.side {
                     Side::Bid => bid_side.insert_order(*key, order.order_id, order.vol),
                     Side::Ask => ask_side.insert_order(*key, order.order_id, order.vol),
@@ -908,6 +923,7 @@ impl<const LEVELS: usize> std::convert::TryFrom<OrderBookState<LEVELS>> for Orde
             t: state.t,
             tick_size: state.tick_size,
             trade_vol: state.trade_vol,
+            queue_stamp,
             ask_side,
             bid_side,
             orders: state.orders,
